@@ -248,7 +248,8 @@ static void validate_response(struct sim *s, struct exchange *ex, const uint8_t 
 		uint32_t len = rd32(p + 4);
 
 		if (first_pending) {
-			sim_model_event_at(s, base + off + 8, MA_FIRST_HDR, ver, type);
+			/* bit 8 of the second argument: the header's length field is outside 8..RTR_MAX_PDU_LEN */
+			sim_model_event_at(s, base + off + 8, MA_FIRST_HDR, ver, type | ((len >= 8 && len <= RTR_MAX_PDU_LEN) ? 0u : 0x100u));
 			if (mv == 1 && ver == 0 && type != 10 && len >= 8 && len <= RTR_MAX_PDU_LEN)
 				mv = 0;
 			first_pending = false;
